@@ -82,6 +82,15 @@ def Res.andThen (r : Res) (g : Unit → Res) : Res :=
   | .ok l => (g ()).prepend l
   | e => e
 
+/-- padding inserted after a take of `b` bytes that started on an aligned address -/
+def pad (b : Nat) : Nat := alignOff b
+
+/-- `b.next_multiple_of(DEFAULTALIGN)` -/
+def roundUp (b : Nat) : Nat := b + pad b
+
+/-- the size check of `split_mut(n, len)`: `(n - 1) * len.next_multiple_of(DEFAULTALIGN) + len` for `n > 0` -/
+def parNeed (n len : Nat) : Nat := if n = 0 then 0 else (n - 1) * roundUp len + len
+
 /-- the loop of `split_mut`: `n` consecutive `split_at_mut(len)`.  Returns the take events, the `n`
 windows and the remainder; `none` = one of the takes panicked. -/
 def splitLoop : Nat → Nat → Arena → Option (List Ev × List Arena × Arena)
@@ -109,14 +118,11 @@ def run : AllocTree → Arena → Res
   | .alt x y, a => (run x a).andThen (fun _ => run y a)
   | .need b k, a => if b ≤ a.available then run k a else .failNeed
   | .par n len body k, a =>
-    if n * len ≤ a.available then
+    if parNeed n len ≤ a.available then
       match splitLoop n len a with
       | none => .failTake
       | some (evs, ws, r) => ((runAll (run body) ws).andThen (fun _ => run k r)).prepend evs
     else .failNeed
-
-/-- padding inserted after a take of `b` bytes that started on an aligned address -/
-def pad (b : Nat) : Nat := alignOff b
 
 /-- requirement of `n` consecutive takes of `len` followed by something that needs `rk` -/
 def parReq : Nat → Nat → Nat → Nat
@@ -130,7 +136,7 @@ def req : AllocTree → Nat
   | .take b k => b + (if req k = 0 then 0 else pad b + req k)
   | .alt x y => max (req x) (req y)
   | .need b k => max b (req k)
-  | .par n len _ k => max (n * len) (parReq n len (req k))
+  | .par n len _ k => max (parNeed n len) (parReq n len (req k))
 
 /-- The requirement the authors of the `lvl_i` comments compute: plain sums and maxima, no padding. -/
 def reqA : AllocTree → Nat
